@@ -69,10 +69,10 @@ def main(tier):
         for i in range(10):
             plan.append(('kissel' if i % 3 == 0 else 'shipped', 'plain', 8 if i % 2 else 16, 20000, 20, (i + 1) % 2))
     else:
-        for i in range(250):
-            plan.append(('shipped' if i % 3 else 'kissel', 'tsan', 8 if i % 4 else 16, 4000, 10 + (i % 5) * 20, i % 2))
-        for i in range(250):
-            plan.append(('kissel' if i % 3 == 0 else 'shipped', 'plain', 8 if i % 2 else 16, 50000, (i % 4) * 15, (i + 1) % 2))
+        for i in range(400):
+            plan.append(('shipped' if i % 3 else 'kissel', 'tsan', 8 if i % 4 else 16, 12000, 10 + (i % 5) * 20, i % 2))
+        for i in range(400):
+            plan.append(('kissel' if i % 3 == 0 else 'shipped', 'plain', 8 if i % 2 else 16, 150000, (i % 4) * 15, (i + 1) % 2))
     libs, mons, queries = {}, {}, {}
     for cfg in ('shipped', 'kissel'):
         libs[cfg] = execlib.Lib(cfg)
